@@ -131,17 +131,17 @@ Definition check_case (c : case) : N :=
   | CObs go vm => if go =? vm then 0%N else 2%N
   | CFrag p code ents runs script long =>
       let ents' := map Z.to_nat ents in
-      let seq_ok := list_eqb instr_eqb (compile_program p) code && list_eqb Nat.eqb (entries (nres p) 0%nat p) ents' in
+      let C := compile_program p in
+      let seq_ok := list_eqb instr_eqb C code && list_eqb Nat.eqb (entries (nres p) 0%nat p) ents' in
       (* bytes: the assembler, with the jump widths of the real script, gives the real script; and a jump that
          the model of the emitter's shortening keeps long is long in the real script (the place holders the
          real emitter deletes afterwards only lengthen distances: the converse can fail in border cases) *)
       let bytes_ok :=
-        match assemble_with long (compile_program p) with
+        match assemble_with long C with
         | Some b => list_eqb Z.eqb b script
         | None => false
         end
-        && forallb2 implb (norm_ws (shorten (compile_program p)) 0 (compile_program p))
-                          (norm_ws long 0 (compile_program p)) in
+        && forallb2 implb (norm_ws (shorten C) C) (norm_ws long C) in
       let per_run := fun (r : Z * list val * obs * obs) =>
         match r with
         | (f, vs, vm, go) =>
